@@ -7,7 +7,7 @@ From Verif.C11 Require Import Model Proofs.
 (* ---------------------------------------------------------------------------------------- *)
 (* checks_eq_spec                                                                            *)
 
-Theorem checks_eq_spec : forall c t, wf t = true -> call_in_f6 c t = false ->
+Theorem checks_eq_spec : forall c t, wf t = true -> call_in_f6c c = false ->
   goja_check c t = spec_check c t.
 Proof.
   intros c t Hwf Hf6. destruct c; simpl in *.
@@ -16,8 +16,7 @@ Proof.
   - apply isext_eq.
   - apply prevext_eq.
   - apply gopd_eq_partial. destruct r; auto.
-  - destruct (desc_invalid d) eqn:Hinv; [reflexivity|].
-    apply define_eq_partial; [assumption|]. destruct r; auto.
+  - destruct (desc_invalid d) eqn:Hinv; [reflexivity|]. apply define_eq; assumption.
   - apply has_eq.
   - apply get_eq.
   - apply set_eq.
@@ -27,9 +26,9 @@ Proof.
   - reflexivity.
 Qed.
 
-(* every trap except getOwnPropertyDescriptor / defineProperty: unconditional *)
+(* every trap except getOwnPropertyDescriptor: unconditional *)
 Theorem checks_eq_spec_other_traps : forall c t, wf t = true ->
-  match c with CGopd _ _ | CDefine _ _ _ => False | _ => True end ->
+  match c with CGopd _ _ => False | _ => True end ->
   goja_check c t = spec_check c t.
 Proof.
   intros c t Hwf H. apply checks_eq_spec; [assumption|]. destruct c; try reflexivity; contradiction.
@@ -39,22 +38,12 @@ Definition acc_target : target := mkT true None [(1%N, PAcc (Some 1%N) None fals
 Definition data_target : target := mkT true None [(1%N, PData 1%N false false false)].
 Definition undef_acc_target : target := mkT true None [(1%N, PAcc None None true true)].
 
-(* F6: an honest result is rejected, a lying one accepted *)
-Theorem gopd_check_refuted :
-  wf acc_target = true /\
-  (goja_check (CGopd 1%N (GDesc (of_prop (PAcc (Some 1%N) None false false)))) acc_target = RTypeError /\
-   spec_check (CGopd 1%N (GDesc (of_prop (PAcc (Some 1%N) None false false)))) acc_target
-     = RDesc (Some (PAcc (Some 1%N) None false false))) /\
-  (goja_check (CGopd 1%N (GDesc (of_prop (PAcc (Some 2%N) None false false)))) acc_target
-     = RDesc (Some (PAcc (Some 2%N) None false false)) /\
-   spec_check (CGopd 1%N (GDesc (of_prop (PAcc (Some 2%N) None false false)))) acc_target = RTypeError).
-Proof. vm_compute. repeat split; reflexivity. Qed.
-
-(* F6, second half: a kind change on a non-configurable property is accepted by defineProperty *)
-Theorem define_check_refuted :
-  wf data_target = true /\
-  goja_check (CDefine 1%N (mkD None None None None (Some (Some 1%N)) None) true) data_target = RBool true /\
-  spec_check (CDefine 1%N (mkD None None None None (Some (Some 1%N)) None) true) data_target = RTypeError.
+(* the corpus cases of the repaired finding F6 now agree (regression witnesses) *)
+Theorem f6_repaired :
+  goja_check (CGopd 1%N (GDesc (of_prop (PAcc (Some 1%N) None false false)))) acc_target
+    = RDesc (Some (PAcc (Some 1%N) None false false)) /\
+  goja_check (CGopd 1%N (GDesc (of_prop (PAcc (Some 2%N) None false false)))) acc_target = RTypeError /\
+  goja_check (CDefine 1%N (mkD None None None None (Some (Some 1%N)) None) true) data_target = RTypeError.
 Proof. vm_compute. repeat split; reflexivity. Qed.
 
 (* an accessor result without getter and setter is reported as a data property *)
@@ -274,75 +263,43 @@ Proof.
     (destruct HA as [c [Hc Hs]]; [discriminate|]; rewrite Hc, Hs; reflexivity).
 Qed.
 
-(* the same through goja's checks, away from the F6 region: the operation is not a
-   getOwnPropertyDescriptor/defineProperty that involves an accessor property at that key *)
-Definition f6_free (o : op) (t : target) : bool :=
+(* the same through goja's checks; the only exception left is finding F6c: getOwnPropertyDescriptor
+   of an accessor property that has neither a getter nor a setter function *)
+Definition f6c_free (o : op) (t : target) : bool :=
   match o with
-  | OGopd k => match find_prop k (t_props t) with Some (PAcc _ _ _ _) => false | _ => true end
-  | ODefine k d => negb (is_accessor d) &&
-                   match find_prop k (t_props t) with Some (PAcc _ _ _ _) => false | _ => true end
+  | OGopd k => match find_prop k (t_props t) with Some (PAcc None None _ _) => false | _ => true end
   | _ => true
   end.
 
-Lemma f6_region_data : forall d v w e c, is_accessor d = false -> desc_invalid d = false ->
-  is_data d = true \/ is_generic d = true ->
-  f6_region d (Some (PData v w e c)) = false.
+Lemma honest_call_f6c_free : forall w o t, f6c_free o t = true ->
+  forall c, honest_call o (fst (ord_step w o t)) = Some c -> call_in_f6c c = false.
 Proof.
-  intros d v w e c Ha Hi Hd. unfold f6_region, is_generic in *. simpl. rewrite Ha. simpl.
-  destruct Hd as [Hd|Hd].
-  - rewrite Hd. simpl. apply andb_false_r.
-  - apply andb_true_iff in Hd. destruct Hd as [_ Hd]. rewrite Hd. simpl. apply andb_false_r.
+  intros w o [ext proto ps] Hfree c Hc. destruct o; simpl in *;
+    try (destruct c; try reflexivity; exfalso;
+         repeat match type of Hc with context [match ?x with _ => _ end] => destruct x; simpl in Hc end; discriminate).
+  destruct (find_prop k ps) as [[v wr e c0|[g|] [s|] e c0]|]; simpl in Hc; inversion Hc; try reflexivity; discriminate.
 Qed.
 
-Lemma honest_call_f6_free : forall w o t, wf t = true -> f6_free o t = true ->
-  let '(r, t') := ord_step w o t in
-  forall c, honest_call o r = Some c -> call_in_f6 c t' = false.
-Proof.
-  intros w o [ext proto ps] Hwf Hfree. destruct o; simpl in *;
-    try (intros c Hc; inversion Hc; reflexivity);
-    try (destruct proto; intros c Hc; inversion Hc; reflexivity).
-  - destruct (opt_oid_eqb v proto); [|destruct ext]; intros c Hc; inversion Hc; reflexivity.
-  - destruct (find_prop k ps) as [[v wr e c0|g s e c0]|] eqn:F; try discriminate;
-      intros c Hc; inversion Hc; simpl; rewrite ?F; try reflexivity; destruct c0; reflexivity.
-  - destruct (desc_invalid d) eqn:Hinv; [intros c Hc; discriminate|].
-    apply andb_true_iff in Hfree. destruct Hfree as [Hna Hcur]. apply negb_true_iff in Hna.
-    destruct (validate_apply ext d (find_prop k ps)) as [p|] eqn:V; intros c Hc; inversion Hc; simpl; [|reflexivity].
-    rewrite find_set_same.
-    unfold validate_apply in V. rewrite Hna in V.
-    destruct (find_prop k ps) as [[v wr e c0|g s e c0]|]; try discriminate.
-    + destruct (spec_compat ext d (Some (PData v wr e c0))); simpl in V; [|discriminate].
-      destruct (is_data d) eqn:Hd; inversion V; apply f6_region_data; auto.
-      right. unfold is_generic. rewrite Hna, Hd. reflexivity.
-    + destruct ext; simpl in V; [|discriminate]. inversion V.
-      apply f6_region_data; auto.
-      destruct (is_data d) eqn:Hd; [left; reflexivity|right; unfold is_generic; rewrite Hna, Hd; reflexivity].
-  - destruct (find_prop k ps); intros c Hc; inversion Hc; reflexivity.
-  - destruct (find_prop k ps) as [[v wr e c0|[g|] s e c0]|]; intros c Hc; inversion Hc; reflexivity.
-  - destruct (find_prop k ps) as [[v' [|] e c0|g [s|] e c0]|]; simpl; try (intros c Hc; inversion Hc; reflexivity).
-    destruct (w_inh_set w k v); [|destruct ext]; intros c Hc; inversion Hc; reflexivity.
-  - destruct (find_prop k ps) as [c0|]; [destruct (p_conf c0)|]; intros c Hc; inversion Hc; reflexivity.
-Qed.
-
-Theorem goja_forwarding_transparent : forall w n o t, wf t = true -> f6_free o t = true ->
+Theorem goja_forwarding_transparent : forall w n o t, wf t = true -> f6c_free o t = true ->
   layered goja_check w n o t = ord_step w o t.
 Proof.
   induction n; intros o t H Hf; simpl; [reflexivity|].
   rewrite IHn by assumption.
   pose proof (honest_accepted w o t H) as HA.
-  pose proof (honest_call_f6_free w o t H Hf) as HF.
+  pose proof (honest_call_f6c_free w o t Hf) as HF.
   pose proof (ord_step_wf w o t H) as HW.
-  destruct (ord_step w o t) as [r t']. simpl in HW.
+  destruct (ord_step w o t) as [r t']. simpl in HW, HF.
   destruct r; try reflexivity;
     (destruct HA as [c [Hc Hs]]; [discriminate|]; rewrite Hc;
      rewrite (checks_eq_spec c t' HW (HF c Hc)), Hs; reflexivity).
 Qed.
 
-(* ...and inside it goja's forwarding proxy is NOT transparent (F6) *)
 Definition w0 : world := mkW (fun _ => false) (fun _ => vundef) (fun _ _ => None) (fun f => f).
 
-Theorem goja_forwarding_refuted :
-  layered goja_check w0 1 (OGopd 1%N) acc_target = (RTypeError, acc_target) /\
-  ord_step w0 (OGopd 1%N) acc_target = (RDesc (Some (PAcc (Some 1%N) None false false)), acc_target).
+(* ...and there goja's forwarding proxy still answers differently from the target (F6c) *)
+Theorem goja_forwarding_refuted_f6c :
+  layered goja_check w0 1 (OGopd 1%N) undef_acc_target = (RDesc (Some (PData vundef false true true)), undef_acc_target) /\
+  ord_step w0 (OGopd 1%N) undef_acc_target = (RDesc (Some (PAcc None None true true)), undef_acc_target).
 Proof. split; reflexivity. Qed.
 
 (* ---------------------------------------------------------------------------------------- *)
@@ -572,7 +529,7 @@ Proof. intros [o|] t; simpl; split; intros; try discriminate; reflexivity. Qed.
 
 (* the same lies are rejected by goja's own checks (all traps where the equality is unconditional) *)
 Theorem goja_rejects_lies : forall c t, wf t = true ->
-  match c with CGopd _ _ | CDefine _ _ _ => False | _ => True end ->
+  match c with CGopd _ _ => False | _ => True end ->
   (goja_check c t = RTypeError <-> spec_check c t = RTypeError).
 Proof. intros c t Hwf H. rewrite (checks_eq_spec_other_traps c t Hwf H). tauto. Qed.
 
@@ -591,7 +548,7 @@ Proof. reflexivity. Qed.
 Definition ex_target : target :=
   mkT false (Some 1%N) [(1%N, PData 1%N false true false); (2%N, PAcc None (Some 2%N) false false); (4%N, PData 2%N true true true)].
 
-Example ex_checks_guard : wf ex_target = true /\ call_in_f6 (CHas 1%N false) ex_target = false /\
+Example ex_checks_guard : wf ex_target = true /\ call_in_f6c (CGopd 1%N (GDesc (of_prop (PData 1%N false true false)))) = false /\
   goja_check (CHas 1%N false) ex_target = RTypeError /\ spec_check (CHas 1%N true) ex_target = RBool true.
 Proof. vm_compute. repeat split; reflexivity. Qed.
 
@@ -605,7 +562,8 @@ Example ex_honest : ord_step w0 (ODefine 4%N (mkD (Some 5%N) None None (Some fal
   = (RBool true, mkT false (Some 1%N) [(1%N, PData 1%N false true false); (2%N, PAcc None (Some 2%N) false false); (4%N, PData 5%N true true false)])
   /\ layered goja_check w0 3 (ODefine 4%N (mkD (Some 5%N) None None (Some false) None None)) ex_target
      = ord_step w0 (ODefine 4%N (mkD (Some 5%N) None None (Some false) None None)) ex_target
-  /\ f6_free (ODefine 4%N (mkD (Some 5%N) None None (Some false) None None)) ex_target = true.
+  /\ f6c_free (ODefine 4%N (mkD (Some 5%N) None None (Some false) None None)) ex_target = true
+  /\ f6c_free (OGopd 2%N) ex_target = true /\ layered goja_check w0 2 (OGopd 2%N) ex_target = ord_step w0 (OGopd 2%N) ex_target.
 Proof. vm_compute. repeat split; reflexivity. Qed.
 
 Example ex_lying_get : spec_check (CGet 1%N 2%N) ex_target = RTypeError /\ spec_check (CGet 2%N 1%N) ex_target = RTypeError /\
